@@ -54,6 +54,8 @@ ASSUMPTIONS = [
     "of C07_row_equals_string is gone with fix-F4; C07_shuffle_invariant (full, temporal issues included) speaks about "
     "files whose onsets are all numeric, as the property's clause does",
     "implementation-side oracle: testing on generated tables, bounded by the generators (histogram in evidence)",
+    "C07_history_* are theorems about the operation-sequence model (the object's state is its table); that the real "
+    "object has no other state that validation reads is tied by the history stream of the correspondence run (testing)",
 ]
 
 ADJ = 2   # 1-based rows + header line
@@ -230,8 +232,9 @@ def run_validate(case, rows):
         return {"exn": type(e).__name__, "msg": str(e)[:120], "frames": [f.name for f in tb]}
 
 
-def describe(case, rows):
-    """Everything the model and the oracle need to know about one table, from the implementation's building blocks."""
+def describe(case, rows, shared=None):
+    """Everything the model and the oracle need to know about one table, from the implementation's building blocks.
+    shared: {"texts": {}, "basic": {}} to keep cell ids stable over the versions of one table (histories)."""
     from hed.models import HedString
     from hed.validator import HedValidator
     sch = schema()
@@ -250,8 +253,8 @@ def describe(case, rows):
     raw = t.dataframe
     pre = [(i["code"], int(i["severity"])) for i in t._mapper.check_for_mapping_issues()]
     npost = len([r for r in t.get_column_refs() if r not in t.columns])
-    texts = {}        # cell text -> id
-    basic = {}        # id -> [(code, sev)]
+    texts = {} if shared is None else shared["texts"]        # cell text -> id
+    basic = {} if shared is None else shared["basic"]        # id -> [(code, sev)]
     out_rows = []
     nomodel = False
     for k in range(len(rows)):
@@ -281,21 +284,131 @@ def describe(case, rows):
             onset = None if (f is None or f != f) else rnd_us(f)
         out_rows.append({"onset": onset, "cells": cl, "bad": bad, "dtext": dtext, "delays": delays, "series": s})
     return {"rows": out_rows, "cats": [colrank[c] for c in cats], "texts": {v: k for k, v in texts.items()},
-            "basic": basic, "pre": pre, "npost": npost, "colname": {v: k for k, v in colrank.items()},
+            "basic": dict(basic), "pre": pre, "npost": npost, "colname": {v: k for k, v in colrank.items()},
             "has_onset": has_onset, "hed_cols": hed_cols, "nomodel": nomodel,
             "has_refs": bool([r for r in t.get_column_refs() if r in t.columns])}
 
 
 def model_line(desc, fixed=UNIT_FIXED):
+    return C.to_sx([cfg_sx(desc, fixed), [row_sx(r) for r in desc["rows"]], err_sx(desc["basic"])])
+
+
+def cfg_sx(desc, fixed=UNIT_FIXED):
+    return [1, 1 if desc["has_onset"] else 0, 1 if (desc["has_refs"] and REFS_SCRAMBLE) else 0, desc["cats"],
+            1 if fixed else 0, len(desc["pre"]), desc["npost"], FIXED, FIXED, FIXED]
+
+
+def row_sx(r):
     def oz(x):
         return "N" if x is None else x
-    cfg = [1, 1 if desc["has_onset"] else 0, 1 if (desc["has_refs"] and REFS_SCRAMBLE) else 0, desc["cats"],
-           1 if fixed else 0,
-           len(desc["pre"]), desc["npost"], FIXED, FIXED, FIXED]
-    rows = [[oz(r["onset"]), [list(c) for c in r["cells"]], r["bad"], 1 if r["dtext"] else 0,
-             [[oz(n), u] for n, u in r["delays"]]] for r in desc["rows"]]
-    err = [[i, 1 if any(s == ERR for _c, s in b) else 0] for i, b in sorted(desc["basic"].items())]
-    return C.to_sx([cfg, rows, err])
+    return [oz(r["onset"]), [list(c) for c in r["cells"]], r["bad"], 1 if r["dtext"] else 0,
+            [[oz(n), u] for n, u in r["delays"]]]
+
+
+def err_sx(basic):
+    return [[i, 1 if any(s == ERR for _c, s in b) else 0] for i, b in sorted(basic.items())]
+
+
+# ---------------------------------------------------------------- histories on ONE input object
+
+class _Text:
+    """stands for the HedString argument of BaseInput.set_cell (only get_as_form is used by it)"""
+
+    def __init__(self, text):
+        self.text = text
+
+    def get_as_form(self, _form):
+        return self.text
+
+
+def validate_object(t):
+    """observable behaviour of validating an EXISTING input object (same shape as run_validate)"""
+    try:
+        iss = t.validate(schema())
+        return {"issues": [issue_key(i) for i in iss]}
+    except Exception as e:  # noqa
+        tb = traceback.extract_tb(e.__traceback__)
+        return {"exn": type(e).__name__, "msg": str(e)[:120], "frames": [f.name for f in tb]}
+
+
+def stage1_history(case):
+    """validate / edit in place / validate again on one object; every validation point becomes one table entry
+    (current rows, abstraction of the CURRENT table from a fresh object, report of the edited object, report of a
+    fresh object) so that the whole oracle and the correspondence apply to every report of the history."""
+    from hed.models import HedString
+    warnings.filterwarnings("ignore")
+    out = {"case": case, "tables": [], "history": True, "hline": None, "notes": []}
+    d = None
+    try:
+        if case.get("tsv"):
+            d = C.scratch_dir("hedverif-c07-")
+            case = dict(case, _dir=d)
+        cols = list(case["cols"])
+        tracked = [list(r) for r in case["rows"]]
+        shared = {"texts": {}, "basic": {}}
+        try:
+            t = make_input(case, tracked)
+            desc0 = describe(case, tracked, shared)
+        except Exception:  # noqa
+            out["tables"].append({"rows": tracked, "describe_exn": traceback.format_exc()[-600:]})
+            return out
+        prev = desc0
+        mops = []
+        nomodel = desc0["nomodel"]
+        for oi, op in enumerate(case["ops"]):
+            kind = op[0]
+            try:
+                if kind == "validate":
+                    impl = validate_object(t)
+                    frame = [[str(x) for x in row] for row in t.dataframe.values.tolist()]
+                    out["tables"].append({"rows": [list(r) for r in tracked], "desc": prev, "impl": impl,
+                                          "fresh": run_validate(case, tracked), "frame_ok": frame == tracked,
+                                          "frame": None if frame == tracked else frame, "step": oi, "line": None})
+                    mops.append(["V"])
+                    continue
+                if kind == "read":
+                    t.dataframe_a, t.series_a     # noqa  (fills whatever the object may cache)
+                    continue
+                if kind == "set_cell":
+                    _k, r, cname, text, real = op
+                    c = cols.index(cname)
+                    if real:
+                        hs = HedString(text, schema())
+                        new = hs.get_as_form("short_tag")
+                        t.set_cell(r, c, hs)
+                    else:
+                        new = text
+                        t.set_cell(r, c, _Text(text))
+                    tracked[r][c] = new
+                elif kind == "write":
+                    _k, r, cname, text = op
+                    c = cols.index(cname)
+                    t.dataframe.iloc[r, c] = text
+                    tracked[r][c] = text
+                elif kind in ("short", "long"):
+                    form = kind + "_tag"
+                    tagcols = [x for x in t._mapper.get_tag_columns() if x in cols]
+                    new = {x: [str(HedString(tracked[r][cols.index(x)], schema()).get_as_form(form))
+                               for r in range(len(tracked))] for x in tagcols}
+                    (t.convert_to_short if kind == "short" else t.convert_to_long)(schema())
+                    for x, vals in new.items():
+                        for r, v in enumerate(vals):
+                            tracked[r][cols.index(x)] = v
+                now = describe(case, tracked, shared)
+            except Exception:  # noqa  an edit that fails is outside the property: the history ends here
+                out["notes"].append(f"op {oi} {kind}: " + traceback.format_exc()[-300:])
+                break
+            nomodel = nomodel or now["nomodel"]
+            for k, (a, b) in enumerate(zip(prev["rows"], now["rows"])):
+                if row_sx(a) != row_sx(b):
+                    mops.append(["S", k, row_sx(b)])
+            prev = now
+        if not nomodel and out["tables"]:
+            out["hline"] = C.to_sx(["H", cfg_sx(desc0), [row_sx(r) for r in desc0["rows"]], err_sx(shared["basic"]), mops])
+    finally:
+        if d:
+            shutil.rmtree(d, ignore_errors=True)
+    return out
 
 
 def stage1(case):
@@ -684,7 +797,7 @@ def stage2(arg):
     idents = []
     corr = 0
     for ti, (tab, m) in enumerate(zip(s1["tables"], models)):
-        tag = "table" if ti == 0 else f"perm{ti}"
+        tag = (f"history-step{tab.get('step')}" if s1.get("history") else ("table" if ti == 0 else f"perm{ti}"))
         if "describe_exn" in tab:
             events.append(("violation", "harness-describe", {"case": strip(case), "rows": tab["rows"]}, tab["describe_exn"], None))
             idents.append(None)
@@ -699,6 +812,19 @@ def stage2(arg):
                            traceback.format_exc()[-800:], None))
             idents.append(None)
             continue
+        if s1.get("history"):
+            hp = {"case": strip(case), "rows": tab["rows"], "which": tag}
+            fresh = tab["fresh"]
+            same = (impl.get("exn") == fresh.get("exn") and impl.get("ctor_exn") == fresh.get("ctor_exn")
+                    and Counter(tuple(i) for i in impl.get("issues", [])) == Counter(tuple(i) for i in fresh.get("issues", [])))
+            if not same:
+                a = Counter(tuple(i) for i in impl.get("issues", []))
+                b = Counter(tuple(i) for i in fresh.get("issues", []))
+                probe.report("history-same-as-fresh", hp,
+                             f"after the edits the object reports {impl.get('exn') or dict(a - b)} but a fresh object holding the "
+                             f"same table reports {fresh.get('exn') or dict(b - a)}")
+            if not tab["frame_ok"]:
+                probe.report("history-table", hp, f"the object's table {tab['frame']} is not the edited table {tab['rows']}")
         events += probe.events
         # correspondence
         if m is None:
@@ -729,8 +855,9 @@ def stage2(arg):
             events.append(("corr", "correspondence", payload, diff, None if not probe.events else "covered"))
     probe = Recorder()
     try:
-        shuffle_oracle(case, [t for t in s1["tables"] if "desc" in t], [i for t, i in zip(s1["tables"], idents) if "desc" in t],
-                       probe)
+        if not s1.get("history"):
+            shuffle_oracle(case, [t for t in s1["tables"] if "desc" in t],
+                           [i for t, i in zip(s1["tables"], idents) if "desc" in t], probe)
     except Exception:  # noqa
         events.append(("violation", "harness-shuffle", {"case": strip(case)}, traceback.format_exc()[-800:], None))
     events += probe.events
@@ -857,6 +984,75 @@ def gen_case(rng, tier):
     return {"cols": cols, "rows": rows, "sidecar": sidecar, "perms": perms, "tsv": profile == "tsv"}
 
 
+def gen_history(rng, tier):
+    """one table on ONE input object: validate, edit cells in place through the public API, validate again ..."""
+    while True:
+        case = gen_case(rng, tier)
+        if [c for c in case["cols"] if c in ("HED", "cat", "val")] and case["rows"]:
+            break
+    case["perms"] = []
+    cols, n = case["cols"], len(case["rows"])
+    profile = "tsv" if case["tsv"] else "mixed"
+    used = {r[cols.index("onset")] for r in case["rows"]} if "onset" in cols else set()
+
+    def an_edit():
+        x = rng.random()
+        if "HED" in cols and x < 0.12:
+            return [rng.choice(["short", "long"])]
+        if "onset" in cols and x < 0.22:
+            o = fmt_onset(rng.randrange(0, 200) / 8.0)
+            if o not in used:
+                used.add(o)
+                return ["write", rng.randrange(n), "onset", o]
+        c = rng.choice([c for c in cols if c in ("HED", "cat", "val")])
+        if c == "HED":
+            text = gen_hed_cell(rng, profile)
+        elif c == "cat":
+            text = rng.choice(["a", "b", "c", "d", "e", "f", "g", "h", "n/a", "zz"])
+        else:
+            text = rng.choice(VALUES)
+        if case["tsv"] and text == "":
+            text = "n/a"
+        if rng.random() < 0.3:
+            return ["write", rng.randrange(n), c, text]
+        real = c == "HED" and text in VALID_CELLS and rng.random() < 0.5
+        return ["set_cell", rng.randrange(n), c, text, real]
+
+    ops = [["validate"]] if rng.random() < 0.8 else [["read"]]
+    for _ in range(rng.randint(1, 3)):
+        for _ in range(rng.randint(1, 3)):
+            ops.append(an_edit())
+        if rng.random() < 0.15:
+            ops.append(["read"])
+        ops.append(["validate"])
+        if rng.random() < 0.1:
+            ops.append(["validate"])
+    case["ops"] = ops
+    return case
+
+
+def history_corpus():
+    cs = []
+
+    def mk(rows, ops, cols=("onset", "HED", "cat", "val"), sidecar="plain", tsv=False):
+        cs.append({"cols": list(cols), "rows": [list(r) for r in rows], "sidecar": sidecar, "perms": [], "tsv": tsv,
+                   "ops": [list(o) for o in ops]})
+    # repair an invalid cell, break a clean one, remove a row-level duplicate: each report describes the current cells
+    mk([["1.0", "Red, Blue", "a", "x"], ["2.0", "Green, Nonsense", "b", "n/a"], ["3.0", "Square", "n/a", "n/a"],
+        ["4.0", "Red", "a", "n/a"]],
+       [["validate"], ["set_cell", 1, "HED", "Green, Blue", False], ["set_cell", 2, "HED", "Bad tag!", False], ["validate"],
+        ["set_cell", 3, "cat", "b", False], ["validate"], ["validate"]])
+    # reading the assembled frame first, then editing; conversions; an onset edit that makes the file unsorted
+    mk([["1.0", "Property/Sensory-property/Sensory-attribute/Visual-attribute/Color/CSS-color/Red-color/Red", "n/a", "n/a"],
+        ["2.0", "(Def/MyDef, Onset)", "n/a", "n/a"], ["3.0", "(Def/MyDef, Offset)", "n/a", "n/a"]],
+       [["read"], ["short"], ["validate"], ["write", 2, "onset", "0.5"], ["validate"], ["long"], ["validate"]])
+    mk([["Red, Red", "a"], ["Blue", "b"]], [["validate"], ["write", 0, "HED", "Red"], ["validate"],
+                                           ["set_cell", 1, "HED", "Blue", True], ["validate"]], cols=("HED", "cat"))
+    mk([["1.0", "Red", "a", "x"], ["2.0", "Blue", "b", "y"]],
+       [["validate"], ["set_cell", 0, "val", "x,y", False], ["set_cell", 1, "cat", "zz", False], ["validate"]], tsv=True)
+    return cs
+
+
 def corpus():
     """Fixed cases first: the refuted witnesses and regression cases."""
     cs = []
@@ -914,6 +1110,10 @@ def run(tier, seed, res, model_ok=True, proof_ok=True):
         ngen *= 3
     fixed = corpus() + spelling_corpus()
     cases = fixed + [gen_case(rng, tier) for _ in range(ngen)]
+    nhist = 150 if tier == "quick" else 1500
+    if not proof_ok:
+        nhist *= 3
+    hcases = history_corpus() + [gen_history(rng, tier) for _ in range(nhist)]
     with Pool(int(C.JOBS)) as pool:
         s1 = pool.map(stage1, cases, chunksize=8)
         # extracted model
@@ -931,6 +1131,16 @@ def run(tier, seed, res, model_ok=True, proof_ok=True):
         for (ci, ti), o in zip(where, outs):
             models[ci][ti] = o
         s2 = pool.map(stage2, list(zip(s1, models)), chunksize=8)
+        # histories on one input object
+        s1h = pool.map(stage1_history, hcases, chunksize=4)
+        hwhere = [i for i, s in enumerate(s1h) if model_ok and s.get("hline")]
+        houts = C.run_driver(C.build_driver("c07"), [s1h[i]["hline"] for i in hwhere]) if hwhere else []
+        hmodels = [[None] * len(s["tables"]) for s in s1h]
+        for i, o in zip(hwhere, houts):
+            reps = [x for x in o[1:] if x[0] != "set"] if o and o[0] == "hist" else []
+            hmodels[i] = reps if len(reps) == len(s1h[i]["tables"]) else [["ERR", "history-driver", str(o)[:200]]] * len(s1h[i]["tables"])
+        s2 += pool.map(stage2, list(zip(s1h, hmodels)), chunksize=4)
+    s1 = s1 + s1h
 
     disagreements = 0
     corr_cases = 0
@@ -982,6 +1192,10 @@ def run(tier, seed, res, model_ok=True, proof_ok=True):
             if c.get("tsv"):
                 hist["tsv_file"] += 1
             hist["permutations"] += len(c.get("perms", []))
+            if s.get("history"):
+                hist["histories"] += 1
+                hist["history_validations"] += len(s["tables"])
+                hist["history_edits"] += sum(1 for o in c["ops"] if o[0] in ("set_cell", "write", "short", "long"))
         if "exn" in s["tables"][0].get("impl", {}):
             hist["raises"] += 1
     return {
@@ -990,8 +1204,11 @@ def run(tier, seed, res, model_ok=True, proof_ok=True):
         "rule": "corpus (witnesses of C07-F2..F4 and of the repaired C07-F1/F5, regressions) + every time-unit spelling in Delay/Duration groups + "
                 f"{ngen} random tables (1-6 rows, 1-3 HED-bearing columns, sidecar with categorical/value columns, "
                 "optionally curly-brace references) each with up to 5 row permutations (all permutations for half of "
-                "the tables with <=3 rows); every table and every permuted table is one evaluation; non-trivial = at "
-                "least two rows or a Delay group",
+                "the tables with <=3 rows) + "
+                f"{len(hcases)} histories on ONE input object (validate / read the assembled frame / set_cell with a "
+                "HedString or HedString-like value / write through .dataframe incl. the onset column / "
+                "convert_to_short / convert_to_long / validate again, 1-3 rounds); every table, every permuted table and "
+                "every validation point of a history is one evaluation; non-trivial = at least two rows or a Delay group",
         "samples": [strip(cases[0]), strip(cases[len(fixed)]), strip(cases[-1])],
         "histogram": dict(hist),
         "oracle_reports": dict(clause_hits),
@@ -1009,6 +1226,29 @@ def replay(payload):
         return 1
     pc = payload["case"]
     case = dict(case)
+    if case.get("ops"):                       # a history on one object: run it again from its first table
+        s1 = stage1_history(case)
+        models = [None] * len(s1["tables"])
+        try:
+            if s1.get("hline"):
+                o = C.run_driver(C.build_driver("c07"), [s1["hline"]])[0]
+                reps = [x for x in o[1:] if x[0] != "set"]
+                if len(reps) == len(models):
+                    models = reps
+        except Exception as e:  # noqa
+            print("model not available:", e)
+        events, _ = stage2((s1, models))
+        print("operations:", case["ops"])
+        for tb in s1["tables"]:
+            print("step", tb.get("step"), "rows:", tb["rows"])
+            print("  object   :", tb.get("impl"))
+            print("  fresh    :", tb.get("fresh"))
+        bad = 0
+        for kind, clause, _payload, detail, fid in events:
+            print("FAILS:" if fid in (None, "covered") else f"KNOWN({fid}):", clause, detail)
+            if fid is None or kind != "report":
+                bad += 1
+        return 1 if bad else 0
     case["rows"] = pc.get("rows", case["rows"])
     case["perms"] = []
     if pc.get("shuffled"):
